@@ -257,7 +257,7 @@ func (o *GcsFile) Readdir(count int) ([]os.FileInfo, error) {
 		sort.Sort(ByName(fi))
 	}
 
-	if count > 0 {
+	if count > 0 && count < len(fi) {
 		fi = fi[:count]
 	}
 
